@@ -107,9 +107,53 @@ func ZZ_C15_P1_pacemaker_needs_one_third() {
 				claimed += ps[i]
 			}
 		}
-		zzAssert("P1.jump-backed-by-one-third", 3*claimed >= total)
+		zzAssert("P1.jump-backed-by-one-third", 3*claimed > total)
 	} else {
 		zzReach("P1.stay")
+	}
+}
+
+// P1b: the same statement when the claims arrive through the real AddPacemakerMessage, in any order
+// and with repeats: a validator that sends several (different) claims is still one validator - only
+// its latest claim counts, and its power is counted once.
+//
+//zz:harness mode=int unwind=60 maxpaths=60000 timebudget=900
+//zz:reach P1b.jump P1b.stay
+func ZZ_C15_P1b_pacemaker_counts_each_validator_once() {
+	n := zzParam("n", 3)
+	ps, total := zzPowers(n)
+	for _, p := range ps {
+		zzAssume(p >= 1)
+	}
+	zzAssume(total < 1<<56)
+	vs := zzValSet(ps)
+	own := zzU64("ownRound")
+	zzAssume(own < 1<<40)
+	ctl := &zzCtl{valSet: vs}
+	b := &BFT{View: &lib.View{Round: own}, ValidatorSet: vs, Controller: ctl, log: zzLog{}, PacemakerMessages: PacemakerMessages{}}
+	latest := make([]uint64, n)
+	present := make([]bool, n)
+	k := zzParam("messages", 4)
+	for j := 0; j < k; j++ {
+		who := zzConcrete(zzInt("sender"), 0, n-1)
+		r := zzU64("claimedRound")
+		latest[who], present[who] = r, true
+		err := b.AddPacemakerMessage(&Message{Qc: &QC{Header: &lib.View{Round: r}}, Signature: &lib.Signature{PublicKey: zzPub(who)}})
+		zzAssert("P1b.add-returns-nil", err == nil)
+	}
+	b.Pacemaker()
+	zzAssert("P1b.round-advances", b.Round >= own+1)
+	if b.Round > own+1 {
+		zzReach("P1b.jump")
+		var claimed uint64
+		for i := 0; i < n; i++ {
+			if present[i] && latest[i] >= b.Round {
+				claimed += ps[i]
+			}
+		}
+		zzAssert("P1b.jump-backed-by-more-than-one-third-of-distinct-validators", 3*claimed > total)
+	} else {
+		zzReach("P1b.stay")
 	}
 }
 
